@@ -28,6 +28,35 @@ def dec_field(t, name):
     return t[0] == "field" and t[2] == name and t[1][0] == "payload" and t[1][1] == "Ok" and t[1][2][0] == "call" and t[1][2][1] == DES and peel(t[1][2][2][0]) == ("param", 1)
 
 
+def literal_seq(t):
+    """elements of a literal sequence - vec![..], an array, or a borrowed / unsized view of one - else None"""
+    for _ in range(8):
+        if t[0] in ("ref", "deref"):
+            t = t[2] if t[0] == "ref" else t[1]
+        elif t[0] == "cast" and t[1] in ("PointerCoercion", "Unsize"):
+            t = t[2]
+        elif t[0] == "call" and isinstance(t[1], str) and len(t[2]) == 1 and t[1].split("::")[-1] in ("as_slice", "deref", "to_vec", "into_vec", "iter", "into_iter"):
+            t = t[2][0]
+        else:
+            break
+    if t[0] == "agg" and t[1] in ("vec", "array"):
+        return list(t[3])
+    return None
+
+
+def struct_view(ft, cell):
+    """{field: value} of the A5Cell handed to serialize, whether it is built in one literal or built once and then
+    updated field by field (a loop-carried struct whose `s` is assigned per iteration)"""
+    from ..query import field_of
+    out = {}
+    for name in ("origin_id", "segment", "s", "resolution"):
+        v = field_of(ft, cell, name)
+        if v is None or v == ("self",):
+            return None
+        out[name] = v
+    return out
+
+
 def run(ctx):
     facts, run = ctx.facts, ctx.run
     run.explanation = EXPL
@@ -61,11 +90,11 @@ def run(ctx):
             run.inst("C07.T5", "children-same-resolution-canonical", same_res_guard(ft, c),
                      "the decoded input cell is re-serialised only when target == current resolution", where(c.span))
             continue
-        if cell[0] != "agg" or not cell[4]:
+        f = struct_view(ft, cell)
+        if f is None:
             run.bad("C07.T1", "children-cell", "serialize argument is %s - unrecognised idiom" % fmt(cell), where(c.span))
             continue
         nbuilt += 1
-        f = dict(zip(cell[4], cell[3]))
         T = f["resolution"]
         od = option_default(ft, T)
         okT = od is not None and od[0] == ("param", 2) and od[1] is not None and od[1][0] != "agg"
@@ -101,10 +130,11 @@ def run(ctx):
                 desc = []
                 own = full = False
                 for sset in sets:
-                    if sset[0] == "agg" and sset[1] == "vec" and len(sset[3]) == 1 and dec_field(sset[3][0], fld):
+                    els = literal_seq(sset)
+                    if els is not None and len(els) == 1 and dec_field(els[0], fld):
                         own = True
                         desc.append("[parent.%s]" % fld)
-                    elif sset[0] == "agg" and sset[1] == "vec" and [const_int(x) for x in sset[3]] == list(range(want_full)):
+                    elif els is not None and [const_int(x) for x in els] == list(range(want_full)):
                         full = True
                         desc.append("[0..%d)" % want_full)
                     elif sset[0] == "call" and sset[1].endswith("::collect") and sset[2][0][0] == "agg" and "Range" in sset[2][0][2] \
@@ -138,7 +168,7 @@ def run(ctx):
                         if r is None:
                             got[fld] = None
                         else:
-                            got[fld] = not (r[0] == "agg" and r[1] == "vec" and len(r[3]) == 1)
+                            got[fld] = not (literal_seq(r) is not None and len(literal_seq(r)) == 1)
                     cases += 1
                     want = {"origin_id": curv == -1, "segment": (curv == -1 and tv > 0) or curv == 0}
                     if got != want:
@@ -230,10 +260,10 @@ def run(ctx):
             run.inst("C07.T5", "parent-same-resolution-canonical", same_res_guard(fp, c),
                      "the decoded input cell is re-serialised only when target == current resolution", where(c.span))
             continue
-        if cell[0] != "agg" or not cell[4]:
+        f = struct_view(fp, cell)
+        if f is None:
             run.bad("C07.T1", "parent-cell", "serialize argument is %s - unrecognised idiom" % fmt(cell), where(c.span))
             continue
-        f = dict(zip(cell[4], cell[3]))
         T = f["resolution"]
         od = option_default(fp, T)
         okT = od is not None and od[0] == ("param", 2) and od[1] is not None and od[1][0] != "agg"
@@ -268,4 +298,23 @@ def run(ctx):
         a0, a1 = rts[0][2]
         okr = const_int(a0) == 0 and is_variant(a1, "Some") and const_int(a1[3][0]) == 0
     run.inst("C07.T5", "res0-is-children-of-world", okr, "get_res0_cells = %s" % [fmt(t) for t in rts], where(facts.fns[RES0]["span"]))
+    run.floor("C07.T1", "children construction sites analysed (serialize of a freshly built cell)", nbuilt, 1)
+    # T6: the world cell is the answer exactly for target resolution -1
+    fpw = fn_terms(facts, PARENT)
+    nw = 0
+    from ..query import return_sites
+    for rb, t in return_sites(fpw):
+        if True:
+            if is_variant(t, "Ok") and const_int(t[3][0]) == 0:
+                nw += 1
+                conds = fpw.conditions(rb)
+                okw = False
+                for d, vals, other, excl, _b in conds:
+                    if d[0] == "bin" and d[1] == "Eq" and const_int(d[3]) == -1:
+                        od = option_default(fpw, d[2])
+                        if od is not None and od[0] == ("param", 2) and not (vals == [0] or 0 in vals):
+                            okw = True
+                run.inst("C07.T6", "world-cell-iff-target-minus-one", okw,
+                         "cell_to_parent returns the world cell under %s (must be: requested target == -1)" % [fmt(d)[:50] for d, *_ in conds][:3], where(fpw.fn["span"]))
+    run.floor("C07.T6", "world-cell results of cell_to_parent", nw, 1)
     run.floor("C07", "rule instances", len(run.instances), 14)
